@@ -29,14 +29,27 @@ Definition hu s h p rp q := {| u_scheme := s; u_host := h; u_path := p; u_rawpat
 
 (** ** the property on the implementation's observation (vocabulary of C08/Spec.v) *)
 
-(** the model's answer and the request line of its upstream URL against the observation *)
-Definition corr1 (fx : fixes) (c : case) (raw : string) (o : outcome) (uri : string) : bool :=
-  let m := serve fx (c_rules c) (c_dflt c) (c_host c) raw (c_query c) in
-  outcome_eqb m o &&
-  match m with
-  | Accepted _ _ _ (Some u) => String.eqb (wire_uri u) uri
-  | _ => true
+(** correspondence compares the projection of the answer the property talks about:
+    its kind, the rule, the captured values (as a map) and the PATH of the request line
+    sent upstream (what URL.RequestURI() writes before '?').  The other parts of the
+    upstream URL (scheme, host, query, the RawPath field as such) are C15's. *)
+Definition proj_eqb (m o : outcome) (uri : string) : bool :=
+  match m, o with
+  | BadRequest, BadRequest | NoRule, NoRule | Precondition, Precondition => true
+  | Accepted r1 d1 c1 u1, Accepted r2 d2 c2 u2 =>
+    String.eqb r1 r2 && Bool.eqb d1 d2 && list_eqb cap_eqb (sort_caps c1) (sort_caps c2) &&
+    match u1, u2 with
+    | Some u, Some _ =>
+      let w := wire_path u in
+      String.eqb (if is_empty w then "/"%string else w) (fst (cut_on "?" uri))
+    | None, None => true
+    | _, _ => false
+    end
+  | _, _ => false
   end.
+
+Definition corr1 (fx : fixes) (c : case) (raw : string) (o : outcome) (uri : string) : bool :=
+  proj_eqb (serve fx (c_rules c) (c_dflt c) (c_host c) raw (c_query c)) o uri.
 
 (** rule ids are unique in the generated rule sets *)
 Definition rule_of (rules : list rule) (rid : string) : option rule :=
@@ -158,12 +171,7 @@ Definition check (fx : fixes) (c : case) : verdict :=
 (** * requests through the Envoy entry point *)
 
 Definition corr1_envoy (fx : fixes) (c : case) (raw : string) (o : outcome) (uri : string) : bool :=
-  let m := serve_envoy fx (c_rules c) (c_dflt c) (c_host c) raw (c_query c) in
-  outcome_eqb m o &&
-  match m with
-  | Accepted _ _ _ (Some u) => String.eqb (wire_uri u) uri
-  | _ => true
-  end.
+  proj_eqb (serve_envoy fx (c_rules c) (c_dflt c) (c_host c) raw (c_query c)) o uri.
 
 (** the same predicates; captured values are only specified for well-formed paths
     (a malformed escape reaches heimdall only through Envoy: the value is then "") *)
@@ -191,12 +199,7 @@ Definition check_envoy (fx : fixes) (c : case) : verdict :=
 Definition own_path : string := "/zz-own".
 
 Definition corr1_xfu (fx : fixes) (c : case) (raw : string) (o : outcome) (uri : string) : bool :=
-  let m := serve_xfu fx (c_rules c) (c_dflt c) (c_host c) own_path raw (c_query c) in
-  outcome_eqb m o &&
-  match m with
-  | Accepted _ _ _ (Some u) => String.eqb (wire_uri u) uri
-  | _ => true
-  end.
+  proj_eqb (serve_xfu fx (c_rules c) (c_dflt c) (c_host c) own_path raw (c_query c)) o uri.
 
 (** C08-F6: an X-Forwarded-Uri that does not parse *)
 Definition g_F6 (c : case) : bool := negb (wellformed (c_raw c)) || negb (wellformed (c_raw2 c)).
